@@ -330,6 +330,9 @@ func c10Step(b kvBackend, st kvStore, h db.Db, m *ref.KV, o ref.KVOp, where stri
 	}
 	obs := kvApply(h, o)
 	*steps++
+	if obs.Clobber != "" {
+		return []kvViol{{"caller-key-buffer-modified@" + b.Name, fmt.Sprintf("%s: %s (language %q) wrote into the caller's key buffer: %s", where, o, m.Lang, obs.Clobber)}}, true
+	}
 	if obs.Panic != "" && o.Op != "get" && o.Op != "dump" {
 		return []kvViol{{"panic-" + o.Op + "@" + b.Name, fmt.Sprintf("%s: %s panicked: %s", where, o, obs.Panic)}}, true
 	}
